@@ -935,6 +935,12 @@ class ApplicationStopJobs(ApplicationJobs):
         if running:
             command.stop()
             return True
+        # the process may already be STOPPING there (e.g. another stop request in progress)
+        # no new request is needed but the lower stop sequences must wait for its completion
+        instance_info = command.get_instance_info()
+        if instance_info and instance_info['state'] == ProcessStates.STOPPING:
+            command.update_sequence_counter()
+            return True
 
 
 class Commander:
